@@ -252,7 +252,13 @@ where
     }
 
     if infer_last_probability {
-        if accum >= total || laps_or_zeros != 0 {
+        // If `PRECISION == Probability::BITS` then `total` wraps around to zero, so we compare
+        // `accum - 1 >= total - 1` (in wrapping arithmetic) rather than `accum >= total`. This
+        // is equivalent for `PRECISION < Probability::BITS` since we know that `accum != 0` here
+        // (or else `laps_or_zeros != 0`), and it never rejects a nonzero `accum` if `total`
+        // represents `1 << Probability::BITS`.
+        let one = Probability::one();
+        if accum.wrapping_sub(&one) >= total.wrapping_sub(&one) || laps_or_zeros != 0 {
             return Err(());
         }
         let symbol = symbols.next().ok_or(())?;
